@@ -214,6 +214,14 @@ def record(src):
         except Exception as e:
             case['exc'] = type(e).__name__
             return case
+        # the same rejections through the database object (an image read from memory)
+        for bad_image in (data[:max(0, len(data) - 1)], data + b'\x00'):
+            try:
+                dbx = CircuitsDatabase(io.BytesIO(bad_image))
+                dbx.open()
+                (case['trunc'] if len(bad_image) < len(data) else case['ext']).append('ok')
+            except Exception as e:
+                (case['trunc'] if len(bad_image) < len(data) else case['ext']).append(type(e).__name__)
         cuts = sorted(set([0, 1, 7, 8, 9, len(data) - 1] + [r.randrange(len(data)) for _ in range(6)]))
         for cut in cuts:
             if 0 <= cut < len(data):
